@@ -304,3 +304,49 @@ def residue_info(res):
 def pqr_atoms(pqr_text: str):
     """token lists of the atom lines of a whitespace PQR"""
     return [l.split() for l in pqr_text.splitlines() if l.startswith(("ATOM", "HETATM"))]
+
+
+# ------------------------------------------------------------ nucleic acids (synthesised: no structure offline)
+
+DNA = ["DA", "DC", "DG", "DT"]
+RNA = ["RA", "RC", "RG", "RU"]
+_defs = None
+
+
+def definitions():
+    global _defs
+    if _defs is None:
+        from pdb2pqr import io as pio
+
+        _defs = pio.get_definitions()
+    return _defs
+
+
+def nucleotide(base: str, chain="A", resseq=1, shift=(0.0, 0.0, 0.0), resname=None, hydrogens=False, record="ATOM  "):
+    """one nucleotide from its NA.xml template (heavy atoms unless `hydrogens`), translated by `shift`;
+    `resname` is the name written into the file (DA…; A/C/G/U for RNA as deposited files write it)"""
+    ref = definitions().map[base]
+    rn = resname or base
+    out = []
+    for an, a in ref.map.items():
+        if an.startswith("H") and not hydrogens:
+            continue
+        nm = an if len(an) == 4 else " " + an.ljust(3)
+        l = f"{record}{1:5d} {nm} {rn:>3} {chain}{resseq:4d}    {a.x + shift[0]:8.3f}{a.y + shift[1]:8.3f}{a.z + shift[2]:8.3f}  1.00  0.00          {an[0]:>2}"
+        out.append(Atom(l))
+    return out
+
+
+def strand(rng: random.Random, kind=None, n=None, chain="A", start=1, origin=(0.0, 0.0, 0.0), naming=None, bases=None):
+    """a strand with free ends: residues placed 12 Å apart along x (pdb2pqr needs no inter-residue geometry for nucleic
+    acids: hydrogens are placed from intra-residue atoms). Returns (residues, base names)."""
+    kind = kind or rng.choice("DR")
+    alphabet = DNA if kind == "D" else RNA
+    n = n or rng.randint(2, 6)
+    bases = bases or [rng.choice(alphabet) for _ in range(n)]
+    naming = naming or ("full" if kind == "D" else rng.choice(["full", "one-letter"]))
+    res = []
+    for i, b in enumerate(bases):
+        rn = b[1] if (naming == "one-letter" and b in RNA) else b
+        res.append(nucleotide(b, chain, start + i, (origin[0] + 12.0 * i, origin[1], origin[2]), resname=rn))
+    return res, bases
